@@ -48,19 +48,21 @@ Definition item_of_eq (fs : list gfeat) (x : gfeat) : item :=
 Definition group_features_eq (fs : list gfeat) : list (list nat) :=
   map (map it_id) (group_items (map (item_of_eq fs) fs)).
 
-(* known-defect domain 1 (C15-grouping-conflates-list-tuple): two features whose group options are different but have the
+(* The domains of the two repaired findings (grouping by the hash integer); kept because these are the requests on which
+   grouping by hash and grouping by equality differ, i.e. the regression inputs.
+   Domain 1 (C15-grouping-conflates-list-tuple): two features whose group options are different but have the
    same canonical form (list vs tuple, dict vs tuple of pairs) *)
 Definition kf_canon_conflation (fs : list gfeat) : bool :=
   existsb (fun a => existsb (fun b => canon_eqb a b && negb (opts_agree a b)) fs) fs.
 
-(* known-defect domain 2 (C15-grouping-hash-collision): two features whose group options have different canonical forms
+(* Domain 2 (C15-grouping-hash-collision): two features whose group options have different canonical forms
    with the same hash integer (-1 / -2, "" / 0, z / z mod 2^61-1, an Enum member / its name, and anything built from them) *)
 Definition kf_hash_collision (fs : list gfeat) : bool :=
-  existsb (fun a => existsb (fun b => base_eqb a b && negb (canon_eqb a b)) fs) fs.
+  existsb (fun a => existsb (fun b => hash_eqb a b && negb (canon_eqb a b)) fs) fs.
 
-(* both: unequal (options, frameworks) with the same hash integer -- the hash-based grouping cannot tell them apart *)
+(* both: unequal (options, frameworks) with the same hash integer -- grouping by the integer could not tell them apart *)
 Definition kf_hash_conflation (fs : list gfeat) : bool :=
-  existsb (fun a => existsb (fun b => base_eqb a b && negb (opts_agree a b)) fs) fs.
+  existsb (fun a => existsb (fun b => hash_eqb a b && negb (opts_agree a b)) fs) fs.
 
 (* every feature of the request has hashable, well-formed group options (otherwise hash(options) raises) *)
 Definition hashable_request (fs : list gfeat) : Prop :=
